@@ -20,6 +20,9 @@ VIA = {
     2: (["cb", 1], {"A0": "p", "A2": "q", "A1": "r", "A3": "s"}),
     3: (["cc", 2], {"A2": "1", "A3": "2", "A0": "3", "A1": "4"}),
 }
+# declared clocks: whole, fractional and sub-MHz frequencies, and periods that are no whole number of MHz
+CLOCKS = [25, 12.5, 33.333, 24, 0.032768, 100, 7.3728, 133.33, {"hz": 32768}, {"hz": 1e6 / 3}, {"khz": 455},
+          {"ns": 41.667}, {"ns": 83.333}, {"ns": 30.3}, {"ps": 7519}, {"us": 3.9}, 1, 0.999999, 48.000001]
 NPINS = {"P1": 1, "P2": 2, "D1": 2, "G11": 2, "G12": 3, "G1D": 3, "N": 3}
 SHAPES = list(NPINS)
 
@@ -152,7 +155,7 @@ def s_table(struct, i):
         deco = {"dirs": [DIR4[(i + j + l) % 4] for l in range(nl)],
                 "invs": [bool((i >> 2) + j + l & 1) for l in range(nl)],
                 "levels": [((i >> 1) + j) % 4 if (i & 1) else 0] * len(phys),
-                "clock": (0, 25) if (i + j) % 3 == 0 else None,
+                "clock": (0, CLOCKS[(i // 3 + j) % len(CLOCKS)]) if (i + j) % 3 == 0 else None,
                 "attrs": ["none", "res", "sub"][(i + j) % 3]}
         res.append({"name": "r", "number": j, "node": make_node(shape, phys, deco)})
     return table_of(res, any(uses_conn(r["node"]) for r in res))
@@ -220,7 +223,7 @@ def d1_tables():
                                 if lv == "mixed" and n == 1:
                                     continue
                                 deco = {"dirs": [d] * nl, "invs": invs, "levels": levels,
-                                        "clock": (ck, 10 if ck == 0 else 50) if ck is not None else None, "attrs": av}
+                                        "clock": (ck, 12.5 if ck == 0 else {"hz": 32768}) if ck is not None else None, "attrs": av}
                                 node = make_node(shape, phys, deco)
                                 res = [{"name": "r", "number": 0, "node": node}] + probes(phys)
                                 out.append(table_of(res, uses_conn(node)))
@@ -296,6 +299,18 @@ def _put(d, path, v):
     d[path[-1]] = v
 
 
+# ------------------------------------------------------------------ family EC: every declared clock, end to end
+def ec_tables():
+    """one clocked resource per table: every clock of CLOCKS x (single pin, diff pair, 2nd subsignal of a group)"""
+    out = []
+    for c in CLOCKS:
+        for shape, leaf in (("P1", 0), ("D1", 0), ("G11", 1)):
+            deco = {"dirs": ["i"] * n_leaves(shape), "invs": [False] * n_leaves(shape), "levels": [0] * NPINS[shape],
+                    "clock": (leaf, c), "attrs": "none"}
+            out.append(table_of([{"name": "ck", "number": 0, "node": make_node(shape, PINS[:NPINS[shape]], deco)}], False))
+    return out
+
+
 # ------------------------------------------------------------------ family X: dangling connector references
 def x_tables():
     out = []
@@ -315,7 +330,8 @@ def node_tag(node):
     if node["kind"] == "group":
         return "{" + ",".join(f"{s['name']}=" + node_tag(s["node"]) for s in node["subs"]) + "}" + _atag(node)
     cn = f"@{node['conn'][0]}_{node['conn'][1]}" if node.get("conn") else ""
-    ck = f"~{node['clock_mhz']}M" if node.get("clock_mhz") else ""
+    ck = node.get("clock_mhz")
+    ck = "" if not ck else ("~%s%s" % (*[(v, u) for u, v in ck.items()][0],) if isinstance(ck, dict) else f"~{ck}M")
     inv = "N" if node["invert"] else ""
     if node["kind"] == "pins":
         return f"P{inv}({' '.join(node['names'])}{cn};{node['dir']}{ck})" + _atag(node)
@@ -349,6 +365,15 @@ def action_tag(a):
 
 
 # ------------------------------------------------------------------ spec -> amaranth.build objects
+def period_of(spec):
+    """clock spec (see vf/ref/c19_alloc.clock_hz) -> amaranth Period, built with the unit the spec is written in"""
+    from amaranth.hdl import Period
+    if isinstance(spec, dict):
+        (unit, v), = spec.items()
+        return Period(**{{"hz": "Hz", "khz": "kHz", "mhz": "MHz"}.get(unit, unit): v})
+    return Period(MHz=spec)
+
+
 def build_objects(table):
     from amaranth.build import Resource, Subsignal, Pins, DiffPairs, Attrs, Clock, Connector
     from amaranth.hdl import Period
@@ -375,7 +400,7 @@ def build_objects(table):
             else:
                 args.append(DiffPairs(" ".join(node["p"]), " ".join(node["n"]), dir=node["dir"], invert=node["invert"], conn=conn))
             if node.get("clock_mhz"):
-                args.append(Clock(Period(MHz=node["clock_mhz"])))
+                args.append(Clock(period_of(node["clock_mhz"])))
         if node.get("attrs"):
             args.append(attrs_of(node["attrs"]))
         return args
